@@ -48,7 +48,7 @@ def _m1():
         ('alloc', 1), ('alloc', 0),
         ('idg', 'g', 1), ('idg', 'g', 2), ('idg-', 'g'),
         ('state', 's0', 'frozen', 0), ('state', 's0', 'up', -1),
-        ('bl', 1), ('bl', 0),
+        ('bl', 1), ('bl', 0), ('blk', 's0', 1), ('blk', 's0', 0),
         ('tick', 40), ('noop',), ('restart',),
     )
     return cfg
